@@ -252,7 +252,7 @@ def nested_programs(rng, quick):
 
 
 def nested_cases(rng, quick):
-    return [{"nested": p, "limit": 40 if quick else 400, "seed": rng.randrange(1 << 30)} for p in nested_programs(rng, quick)]
+    return [{"nested": p, "limit": 40 if quick else 150, "seed": rng.randrange(1 << 30)} for p in nested_programs(rng, quick)]
 
 
 def run_nested(case):
